@@ -1,8 +1,212 @@
 import PedalModel.DriverLoop
-open Pedal
+import PedalModel.AssertionsSpec
+import PedalModel.Gen.AssertionConds
+open Pedal Pedal.Assertions
 
-/- Line-protocol driver for C07: replace the stub dispatch with the model's request handlers. -/
+/-
+Line-protocol driver for C07.
+
+values:   N | T | F | I<int> | D<m>/<k> | S<cp,cp,...> (S- empty) | L<n> v.. | U<n> v.. | E<n> v.. |
+          M<n> k v .. | Y<type tag> | X<id> | O<id>
+operand:  <px 0|1> <oid> <poid> value
+requests:
+  a <name> <exact 0|1> <search t|f|r|-> <strR S..|-> <outL S..|r> <delta value> <left operand> <right operand>
+      -> <outcome> spec=<outcome|none>
+  u <n> <exact> <delta value> (<left operand> <right operand>)*n     (unit_test through assert_equal)
+      -> ok passed=<0|1> succ=<k> total=<n> | unmodelled
+  p <rel> <a value> <b value>        primitive relations: eq cmp in allin len truthy isinstance hashable
+  e <exact> <delta value> <actual value> <expected value>     equality_test
+-/
+
+def parseInt? (s : String) : Option Int := s.toInt?
+
+def tyTag? : String → Option TyTag
+  | "int" => some .int | "float" => some .float | "bool" => some .bool | "str" => some .str
+  | "list" => some .list | "tuple" => some .tuple | "set" => some .set | "dict" => some .dict
+  | "object" => some .object | "exception" => some .exception | "type" => some .type
+  | _ => none
+
+def parseStrBody (body : String) : Option (List Nat) :=
+  if body == "-" then some []
+  else (body.splitOn ",").mapM fun t => t.toNat?
+
+mutual
+partial def parseVal : List String → Option (PyVal × List String)
+  | [] => none
+  | tok :: rest =>
+    let body := (tok.drop 1).toString
+    match tok.front with
+    | 'N' => if tok == "N" then some (.none, rest) else none
+    | 'T' => if tok == "T" then some (.bool true, rest) else none
+    | 'F' => if tok == "F" then some (.bool false, rest) else none
+    | 'I' => (parseInt? body).map fun i => (.int i, rest)
+    | 'D' =>
+      match body.splitOn "/" with
+      | [m, k] => do
+        let m ← parseInt? m
+        let k ← k.toNat?
+        pure (.flt m k, rest)
+      | _ => none
+    | 'S' => (parseStrBody body).map fun s => (.str s, rest)
+    | 'L' => do
+      let n ← body.toNat?
+      let (xs, rest) ← parseVals n rest
+      pure (.list xs, rest)
+    | 'U' => do
+      let n ← body.toNat?
+      let (xs, rest) ← parseVals n rest
+      pure (.tuple xs, rest)
+    | 'E' => do
+      let n ← body.toNat?
+      let (xs, rest) ← parseVals n rest
+      pure (.set xs, rest)
+    | 'M' => do
+      let n ← body.toNat?
+      let (xs, rest) ← parseVals (2 * n) rest
+      let rec split : List PyVal → List PyVal × List PyVal
+        | k :: v :: more => let (ks, vs) := split more; (k :: ks, v :: vs)
+        | _ => ([], [])
+      let (ks, vs) := split xs
+      pure (.dict ks vs, rest)
+    | 'Y' => (tyTag? body).map fun t => (.typ t, rest)
+    | 'X' => body.toNat?.map fun i => (.exc i, rest)
+    | 'O' => body.toNat?.map fun i => (.obj i, rest)
+    | _ => none
+partial def parseVals : Nat → List String → Option (List PyVal × List String)
+  | 0, ts => some ([], ts)
+  | n + 1, ts => do
+    let (v, ts) ← parseVal ts
+    let (vs, ts) ← parseVals n ts
+    pure (v :: vs, ts)
+end
+
+def parseOperand : List String → Option (V × List String)
+  | px :: oid :: poid :: rest => do
+    let px ← Wire.decBool px
+    let oid ← oid.toNat?
+    let poid ← poid.toNat?
+    let (v, rest) ← parseVal rest
+    pure ({ v := v, px := px, oid := oid, poid := poid }, rest)
+  | _ => none
+
+def parseSearch : String → Option (Res Bool)
+  | "t" => some (.ok true)
+  | "f" => some (.ok false)
+  | "r" => some (.error .raised)
+  | "-" => some (.error .unmodelled)
+  | _ => none
+
+def showOutcome : Outcome → String
+  | .silent => "silent"
+  | .fires => "fires"
+  | .unmodelled => "unmodelled"
+
+def showRes (r : Res Bool) : String :=
+  match r with
+  | .ok true => "true"
+  | .ok false => "false"
+  | .error .raised => "raised"
+  | .error .unmodelled => "unmodelled"
+
+def lookup (name : String) : Option CondExpr := (Gen.Assertions.table.find? (·.1 == name)).map (·.2)
+
+def handleAssert : List String → String
+  | name :: exact :: search :: strR :: outL :: rest =>
+    match (do
+      let exact ← Wire.decBool exact
+      let search ← parseSearch search
+      let strR : Option (List Nat) ← (if strR == "-" then some none else (parseStrBody (strR.drop 1).toString).map some)
+      let outL : Res (List Nat) ← (if outL == "r" then some (.error .raised)
+                                    else (parseStrBody (outL.drop 1).toString).map Except.ok)
+      let (delta, rest) ← parseVal rest
+      let (l, rest) ← parseOperand rest
+      let (r, rest) ← parseOperand rest
+      if !rest.isEmpty then none
+      let cond ← lookup name
+      let ctx : Ctx := { left := l, right := r, exact := .bool exact, delta := delta,
+                         search := fun _ _ => search,
+                         strOf := fun _ => strR.getD [],
+                         output := fun s => match s with | .left => outL | .right => .error .raised }
+      let o := outcome Gen.Assertions.wrapperGuard cond ctx
+      let spec := match relOf name with
+        | some rel => showOutcome (specOutcome ctx (rel ctx))
+        | none => "none"
+      pure s!"{showOutcome o} spec={spec}") with
+    | some s => s
+    | none => "bad-request"
+  | _ => "bad-request"
+
+partial def parsePairs : Nat → List String → Option (List (V × V) × List String)
+  | 0, ts => some ([], ts)
+  | n + 1, ts => do
+    let (l, ts) ← parseOperand ts
+    let (r, ts) ← parseOperand ts
+    let (more, ts) ← parsePairs n ts
+    pure ((l, r) :: more, ts)
+
+def handleUnit : List String → String
+  | n :: exact :: rest =>
+    match (do
+      let n ← n.toNat?
+      let exact ← Wire.decBool exact
+      let (delta, rest) ← parseVal rest
+      let (pairs, rest) ← parsePairs n rest
+      if !rest.isEmpty then none
+      let cond ← lookup "assert_equal"
+      let ctxs : List Ctx := pairs.map fun (l, r) => { left := l, right := r, exact := .bool exact, delta := delta }
+      let outs := ctxs.map (outcome Gen.Assertions.wrapperGuard cond)
+      if outs.any (· == .unmodelled) then pure "unmodelled"
+      else
+        let (p, s, t) := unitTest Gen.Assertions.wrapperGuard cond ctxs
+        pure s!"ok passed={Wire.encBool p} succ={s} total={t}") with
+    | some s => s
+    | none => "bad-request"
+  | _ => "bad-request"
+
+def showOrd : Res Ord4 → String
+  | .ok .lt => "lt" | .ok .eq => "eq" | .ok .gt => "gt" | .ok .un => "un"
+  | .error .raised => "raised" | .error .unmodelled => "unmodelled"
+
+def handlePrim : List String → String
+  | rel :: rest =>
+    match (do
+      let (a, rest) ← parseVal rest
+      let (b, rest) ← parseVal rest
+      if !rest.isEmpty then none
+      match rel with
+      | "eq" => pure (Wire.encBool (pyEq a b))
+      | "cmp" => pure (showOrd (pyCmp a b))
+      | "in" => pure (showRes (pyIn a b))
+      | "allin" => pure (showRes (pyAllIn a b))
+      | "len" => pure (match pyLen a with | .ok n => toString n | .error _ => "raised")
+      | "truthy" => pure (Wire.encBool (truthy a))
+      | "isinstance" => pure (showRes (pyIsInstance a b))
+      | "hashable" => pure (Wire.encBool (hashable a))
+      | _ => none) with
+    | some s => s
+    | none => "bad-request"
+  | _ => "bad-request"
+
+def handleEq : List String → String
+  | exact :: rest =>
+    match (do
+      let exact ← Wire.decBool exact
+      let (delta, rest) ← parseVal rest
+      let (a, rest) ← parseVal rest
+      let (e, rest) ← parseVal rest
+      if !rest.isEmpty then none
+      match deltaOf delta with
+      | .error _ => pure "unmodelled"
+      | .ok d => pure (showRes (eqTest exact d a e))) with
+    | some s => s
+    | none => "bad-request"
+  | _ => "bad-request"
+
 def dispatch : List String → String
+  | "a" :: ts => handleAssert ts
+  | "u" :: ts => handleUnit ts
+  | "p" :: ts => handlePrim ts
+  | "e" :: ts => handleEq ts
   | _ => "bad-request"
 
 def main : IO Unit := driverMain dispatch
